@@ -32,7 +32,7 @@ ASSUMPTIONS = ["first column compared with the requested initial state cast to t
                "half precisions: only default-scale parameters; missing CPU kernels (NotImplementedError / 'not implemented for') are tolerated and counted"]
 PROBES = ["qe_psi_le_1.5", "qe_psi_gt_1.5", "init_nondefault", "init_default", "resim_shape_change", "via_derivative",
           "via_compute_loss", "via_price", "via_fit", "via_lazy_materialisation", "default_dtype_flip", "cast_then_simulate",
-          "n_steps_1", "n_steps_2", "half_precision", "half_kernel_missing", "generator_direct", "float64"]
+          "n_steps_1", "n_steps_2", "half_precision", "half_kernel_missing", "generator_direct", "float64", "volatility_checked_after_cast"]
 BUFFERS = {"BrownianStock": ["spot"], "HestonStock": ["spot", "variance"], "CIRRate": ["spot"], "VasicekRate": ["spot"],
            "MertonJumpStock": ["spot"], "KouJumpStock": ["spot"], "RoughBergomiStock": ["spot", "variance"],
            "LocalVolatilityStock": ["spot", "volatility"]}
@@ -414,6 +414,14 @@ def _one_op(op, world, stats, hist, p, d, h, w, st_mod):
         elif name == "cast":
             p.to(DT[op["dtype"]])
             w.cast_since = True
+            # derived series follow the cast buffers
+            bufs = {n: b for n, b in p.named_buffers()}
+            if "variance" in bufs and w.kind in ("HestonStock", "RoughBergomiStock"):
+                stats.checks += 1
+                stats.probe("volatility_checked_after_cast")
+                if not bit_equal(p.volatility, bufs["variance"].clamp(min=0.0).sqrt()):
+                    raise Violation(ID, "volatility_not_sqrt_variance", "%s.to" % w.kind, {
+                        "volatility_dtype": str(p.volatility.dtype), "variance_dtype": str(bufs["variance"].dtype)}, seq)
             hist.add(op="cast", dtype=op["dtype"])
         elif name == "generate":
             _generate(op, stats, hist, seq, st_mod)
